@@ -290,7 +290,7 @@ check_raw(const unsigned char *in, size_t n, int sof, int srcchunk, int sinkchun
         mk_sink(&snk, &tk, sinkchunk);
         size_t before = ts.pos;
         int rc = rfc1055_decode(&ctx, &src, &snk);
-        unsigned char rout[64];
+        unsigned char rout[256];
         size_t routn = 0;
         int rrc = refdec_call(&rd, in, n, &rpos, rout, &routn);
         if (tk.n > ts.pos - before)
@@ -633,6 +633,35 @@ u_strings(uint64_t idx, void *arg)
     }
 }
 
+/* every octet value in the positions where the codec looks at values: alone, behind an escape octet, between
+ * ordinary octets, in front of a delimiter - as payload, as raw decoder input and as garbage prefix */
+static void
+u_octets(uint64_t idx, void *arg)
+{
+    (void)arg;
+    for (unsigned v = (unsigned)idx * 16; v < (unsigned)idx * 16 + 16; v++) {
+        const unsigned char c = (unsigned char)v;
+        const unsigned char forms[][5] = { { c }, { ESC, c }, { 0x41, ESC, c, 0x42, END }, { c, ESC, c, END }, { ESC, c, END },
+                                           { c, c, END }, { END, ESC, c, 0x43 } };
+        const size_t lens[] = { 1, 2, 5, 4, 3, 3, 4 };
+        for (size_t f = 0; f < sizeof lens / sizeof lens[0]; f++)
+            for (int cfg = 0; cfg < 8; cfg++) {
+                int sof = cfg & 1, sc = (cfg >> 1) & 1, kc = (cfg >> 2) & 1;
+                vh_arena_reset();
+                VH_CASE4(v, f, cfg, 0);
+                vh_case_tag("payload");
+                check_payload(forms[f], lens[f], sof, sc, kc);
+                vh_case_tag("raw");
+                check_raw(forms[f], lens[f], sof, sc, kc);
+                vh_case_tag("garbage");
+                check_garbage(forms[f], lens[f], sof, sc, kc, v + (unsigned)cfg);
+                *vh_ncases += 3;
+            }
+    }
+    VH_COUNT("every octet value behind an escape octet as raw decoder input");
+    vh_sig(0x12300000ull ^ idx);
+}
+
 static void
 u_random(uint64_t idx, void *arg)
 {
@@ -650,6 +679,15 @@ u_random(uint64_t idx, void *arg)
         VH_CASE4(idx, k, n, mode);
         int cfg = (int)vh_below(&r, 8);
         check_payload(p, n, cfg & 1, (cfg >> 1) & 1, (cfg >> 2) & 1);
+        /* the same octets as what arrives on the line: arbitrary octets behind escapes, delimiters anywhere */
+        {
+            size_t rn = n > 96 ? 96 : n;
+            vh_case_tag("raw");
+            check_raw(p, rn, cfg & 1, (cfg >> 1) & 1, (cfg >> 2) & 1);
+            vh_case_tag("garbage");
+            check_garbage(p, rn > 16 ? 16 : rn, cfg & 1, (cfg >> 1) & 1, (cfg >> 2) & 1, (unsigned)(idx + (uint64_t)k));
+            VH_COUNT("random octets as raw decoder input");
+        }
         if (mode == 2)
             VH_COUNT("random payload of control characters only (worst-case length)");
         vh_sig(0x12200000ull ^ (idx << 8) ^ (uint64_t)k);
@@ -667,8 +705,12 @@ harness_run(void)
         for (uint64_t i = 0; i < (n == 0 ? 1u : n == 1 ? 5u : 25u); i++)
             vh_unit(gen, i, u_strings, (void *)(intptr_t)n);
     }
+    for (uint64_t i = 0; i < 16; i++)
+        vh_unit("octets", i, u_octets, NULL);
     for (uint64_t i = 0; i < (vh_tier ? 10000u : 100u); i++)
         vh_unit("random", i, u_random, NULL);
+    vh_require("every octet value behind an escape octet as raw decoder input");
+    vh_require("random octets as raw decoder input");
     static const char *req[] = { "payload encoded, compared and round-tripped", "raw input: frame delivered",
                                  "raw input: illegal sequence reported", "raw input: source end returned unchanged",
                                  "garbage: prefix empty or ending in a delimiter (all three frames required)",
